@@ -87,6 +87,9 @@ def run(ctx):
     sessionprop.run_sessions(ctx, rep, gdb_sessions(), relevant('C02'), runner=gdbbase.runner, spec=gdbbase.SPEC, label='GDB mode')
     rep.assumptions = ['the printer model (harness/printer.py) renders lines as libwayland does',
                        'TLC, the JSON bridge and the projection/lexer code are trusted']
+    # ... and as a real process (file / run mode), compared with the in-process run
+    from props import sessbase as _sb
+    _sb.process_batch(ctx, rep, ['msg'], ctx.pick(10, 100), 1000451, cmds_after=2)
     return rep
 
 
